@@ -160,6 +160,32 @@ func GenShimCase(t *rapid.T, pr ShimProfile) ShimCase {
 		case "lock":
 			op.Pass = rapid.SampledFrom(passes).Draw(t, l+"Pass")
 			lastPass = op.Pass
+			if rapid.IntRange(0, 2).Draw(t, l+"Burst") > 0 {
+				// a burst of operations attempted while locked, then (mostly) the right passphrase
+				c.Ops = append(c.Ops, op)
+				nb := rapid.IntRange(1, 4).Draw(t, l+"NB")
+				for b := 0; b < nb; b++ {
+					bl := fmt.Sprintf("%sB%d", l, b)
+					bop := Op{Kind: rapid.SampledFrom([]string{"addkey", "addcert", "addhard", "remove", "removeall", "list", "signers", "sign", "lock", "close", "unlock-wrong"}).Draw(t, bl), Cert: -1}
+					switch bop.Kind {
+					case "addkey":
+						bop.Key = rapid.SampledFrom(SSHKeyNames).Draw(t, bl+"Key")
+					case "addcert", "addhard":
+						bop.Cert = rapid.IntRange(0, nc-1).Draw(t, bl+"Cert")
+					case "remove", "sign":
+						bop.Key, bop.Cert = genTarget(bl + "T")
+					case "lock":
+						bop.Pass = "again"
+					case "unlock-wrong":
+						bop.Kind, bop.Pass = "unlock", lastPass+"x"
+					}
+					c.Ops = append(c.Ops, bop)
+				}
+				op = Op{Kind: "unlock", Cert: -1, Pass: lastPass}
+				if rapid.IntRange(0, 4).Draw(t, l+"NoUnlock") == 0 {
+					op = Op{Kind: "list", Cert: -1}
+				}
+			}
 		case "unlock":
 			if rapid.IntRange(0, 2).Draw(t, l+"Right") > 0 {
 				op.Pass = lastPass
